@@ -205,9 +205,13 @@ func runC17(c *Ctx) {
 		{
 			d := c.v3()
 			c.Emit("c17.trs.ctor", F(0)+" "+vF(tp)+" "+vF(v), vF(trs.Position(tp).Transform(v)))
+			c.Emit("c17.holds.trs_ctor", F(0)+" "+vF(tp)+" "+vF(v)+" "+vF(trs.Position(tp).Transform(v)), "true")
 			c.Emit("c17.trs.ctor", F(1)+" "+vF(ts)+" "+vF(v), vF(trs.Scale(ts).Transform(v)))
+			c.Emit("c17.holds.trs_ctor", F(1)+" "+vF(ts)+" "+vF(v)+" "+vF(trs.Scale(ts).Transform(v)), "true")
 			c.Emit("c17.trs.ctor", F(2)+" "+qF(u1)+" "+vF(v), vF(trs.Rotation(u1).Transform(v)))
+			c.Emit("c17.holds.trs_ctor", F(2)+" "+qF(u1)+" "+vF(v)+" "+vF(trs.Rotation(u1).Transform(v)), "true")
 			c.Emit("c17.trs.ctor", F(3)+" "+vF(tp)+" "+qF(u1)+" "+vF(ts)+" "+vF(d)+" "+vF(v), vF(t.Translate(d).Transform(v)))
+			c.Emit("c17.holds.trs_ctor", F(3)+" "+vF(tp)+" "+qF(u1)+" "+vF(ts)+" "+vF(d)+" "+vF(v)+" "+vF(t.Translate(d).Transform(v)), "true")
 			up, fwd, off := c.unit3(), c.v3(), c.v3()
 			c.Emit("c17.mat.fromdirs", vF(up)+" "+vF(fwd)+" "+vF(off), mF(mat.MatFromDirs(up, fwd, off)))
 			if up.Cross(fwd).Length() > 1e-3 {
@@ -219,7 +223,7 @@ func runC17(c *Ctx) {
 			n := 1 + c.Rng.Intn(6)
 			if k%100 == 3 {
 				// sizes around internal batch sizes (a batched / parallel rewrite of a mesh-level loop shows only there)
-				n = []int{255, 256, 257, 1023, 1024, 1025, 4095, 4096, 4097, 8193}[c.Rng.Intn(10)]
+				n = []int{4097, 256, 1025, 8193, 255, 4096, 257, 1023, 1024, 4095}[(k/100)%10]
 				c.Note("mesh.large")
 			}
 			pts := make([]vector3.Float64, n)
